@@ -1,60 +1,184 @@
 package main
 
 // Extractor "assignable" (property C07): compose/utils.go, func checkAssignable, translated
-// statement by statement into a Gallina definition over the vocabulary of Model/TypesGenLib.v.
+// statement by statement into Gallina definitions over the vocabularies Model/TypesGenLib.v
+// (total reading: [check_assignable]) and Model/TypesGenLibP.v (panic-aware reading:
+// [check_assignable_p], None = the evaluation panics).
 //
-// The translator accepts a *decision function*: a body made of `if c { … }` statements whose
-// blocks end in a return (possibly nested, with or without else) followed by a final return; every
-// return yields one of the named constants of the result type; conditions are built with
-// && || ! ( ) from the atoms
-//     x == nil        x != nil        x == y        x != y           (x, y parameters)
-//     x.Kind() == reflect.K           x.Kind() != reflect.K
-//     x.M(y)                                                         (method call between parameters)
-// An atom outside this list that still is a call between parameters (a new reflect predicate)
-// is kept as an application of the extra parameter [unk] to its name and arguments, so that the
-// generated function is "recognised but different" (Proofs/GenAgreeTypes.v then fails); any
-// other statement or expression shape is "not recognised" (translator tie unavailable).
+// The translator accepts a *decision function* over two reflect.Type parameters (whatever their
+// names: the first is the model's [input], the second its [arg]):
+//   statements   if c { … } [else if … | else { … }]   (a block that does not end in a return
+//                falls through to what follows it), switch { case c, d: … default: … } without
+//                tag / fallthrough / break, return K with K a named constant of the result type,
+//                return f(x, y) with f another decision function of the package over parameters
+//                (an arm extracted into a private helper: inlined);
+//   conditions   && || ! ( ) true false, c == d and c != d between conditions (x == false …),
+//                b(x[, y]) with b a private boolean decision function of the package (inlined),
+//                and the atoms
+//       x == nil        x != nil        x == y        x != y           (x, y parameters)
+//       x.Kind() == reflect.K           x.Kind() != reflect.K          (either order)
+//       x.M(y)                                                         (method call between parameters)
+// A method other than Implements (a new reflect predicate) and a kind other than Interface on a
+// concrete type are kept as applications of the extra parameter [unk], so that the generated
+// function is "recognised but different" unless the answer does not matter (Proofs/GenAgreeTypes.v
+// then fails); any other statement or expression shape is "not recognised" (translator tie
+// unavailable, neutral file).
 //
 // Output: coq/Gen/Assignable.v with
-//   check_assignable : (string -> option ty -> option ty -> bool) -> univ -> option ty -> option ty -> assignable
+//   check_assignable   : (string -> option ty -> option ty -> bool) -> univ -> option ty -> option ty -> assignable
+//   check_assignable_p : (string -> option ty -> option ty -> bool) -> univ -> option ty -> option ty -> option assignable
 
 import (
 	"fmt"
 	"go/ast"
+	"go/parser"
 	"go/token"
 	"go/types"
+	"os"
+	"path/filepath"
+	"sort"
 	"strings"
 )
 
+const c07aHeadNeutral = "(* Gen/Assignable.v — translator tie UNAVAILABLE: tools/go2v (extractor \"assignable\") did not recognise the\n" +
+	"   shape of compose/utils.go:checkAssignable; the model's own function is re-exported. *)\n" +
+	"From Eino Require Import Base.Util Model.Types Model.TypesGenLib Model.TypesGenLibP.\n\n" +
+	"Definition check_assignable (unk : string -> option ty -> option ty -> bool) (u : univ) (input arg : option ty) : assignable :=\n" +
+	"  Model.Types.check_assignable u input arg.\n\n" +
+	"Definition check_assignable_p (unk : string -> option ty -> option ty -> bool) (u : univ) (input arg : option ty) : option assignable :=\n" +
+	"  Some (Model.Types.check_assignable u input arg).\n"
+
 func init() {
-	register("assignable", extractAssignable)
-	registerFallback("assignable", "Assignable.v", "(* Gen/Assignable.v — translator tie UNAVAILABLE: tools/go2v (extractor \"assignable\") did not recognise the\n"+
-		"   shape of compose/utils.go:checkAssignable; the model's own function is re-exported. *)\n"+
-		"From Eino Require Import Base.Util Model.Types Model.TypesGenLib.\n\n"+
-		"Definition check_assignable (unk : string -> option ty -> option ty -> bool) (u : univ) (input arg : option ty) : assignable :=\n"+
-		"  Model.Types.check_assignable u input arg.\n")
+	register("assignable", c07aExtract)
+	registerFallback("assignable", "Assignable.v", c07aHeadNeutral)
 }
 
-type decisionCfg struct {
-	params   map[string]bool
-	retConst map[string]string // Go constant -> Gallina constructor
+func c07aCoqStr(s string) string { return `"` + strings.ReplaceAll(s, `"`, `""`) + `"%string` }
+
+// ---------------------------------------------------------------- intermediate form
+
+// a condition (op, name, args) or a decision tree (op "ite" / "ret")
+type c07aNode struct {
+	op   string // nil eq kind impl unk not and or beq const | ite ret
+	s    string // kind name / method name / constant
+	x, y string // Gallina names of the parameters an atom is about
+	a    []*c07aNode
 }
 
-func (c *decisionCfg) param(e ast.Expr) (string, bool) {
+func (n *c07aNode) total() string {
+	switch n.op {
+	case "nil":
+		return "(rt_is_nil " + n.x + ")"
+	case "eq":
+		return "(rt_eq " + n.x + " " + n.y + ")"
+	case "kind":
+		if n.s == "Interface" {
+			return "(rt_kind_is " + c07aCoqStr(n.s) + " " + n.x + ")"
+		}
+		// the total vocabulary knows the Interface kind only: another kind is false for an interface type,
+		// unknown for a concrete type
+		return "(negb (rt_kind_is " + c07aCoqStr("Interface") + " " + n.x + ") && unk " + c07aCoqStr("Kind."+n.s) + " " + n.x + " None)"
+	case "impl":
+		return "(rt_implements u " + n.x + " " + n.y + ")"
+	case "unk":
+		return "(unk " + c07aCoqStr(n.s) + " " + n.x + " " + n.y + ")"
+	case "not":
+		return "(negb " + n.a[0].total() + ")"
+	case "and":
+		return "(" + n.a[0].total() + " && " + n.a[1].total() + ")"
+	case "or":
+		return "(" + n.a[0].total() + " || " + n.a[1].total() + ")"
+	case "beq":
+		return "(Bool.eqb " + n.a[0].total() + " " + n.a[1].total() + ")"
+	case "const":
+		return n.s
+	case "ret":
+		return n.s
+	case "ite":
+		return "(if " + n.a[0].total() + " then " + n.a[1].total() + "\n   else " + n.a[2].total() + ")"
+	}
+	panic("c07aNode.total: " + n.op)
+}
+
+func (n *c07aNode) partial() string {
+	switch n.op {
+	case "nil":
+		return "(rtp_is_nil " + n.x + ")"
+	case "eq":
+		return "(rtp_eq " + n.x + " " + n.y + ")"
+	case "kind":
+		return "(rtp_kind_is unk " + c07aCoqStr(n.s) + " " + n.x + ")"
+	case "impl":
+		return "(rtp_implements u " + n.x + " " + n.y + ")"
+	case "unk":
+		return "(rtp_unk unk " + c07aCoqStr(n.s) + " " + n.x + " " + n.y + ")"
+	case "not":
+		return "(pb_not " + n.a[0].partial() + ")"
+	case "and":
+		return "(pb_and " + n.a[0].partial() + " " + n.a[1].partial() + ")"
+	case "or":
+		return "(pb_or " + n.a[0].partial() + " " + n.a[1].partial() + ")"
+	case "beq":
+		return "(pb_beq " + n.a[0].partial() + " " + n.a[1].partial() + ")"
+	case "const":
+		return "(pb_const " + n.s + ")"
+	case "ret":
+		return "(Some " + n.s + ")"
+	case "ite":
+		return "(pb_if " + n.a[0].partial() + " " + n.a[1].partial() + "\n   " + n.a[2].partial() + ")"
+	}
+	panic("c07aNode.partial: " + n.op)
+}
+
+func (n *c07aNode) size() int {
+	k := 1
+	for _, c := range n.a {
+		k += c.size()
+	}
+	return k
+}
+
+// ---------------------------------------------------------------- translation
+
+type c07aTr struct {
+	funcs    map[string]*ast.FuncDecl // the package's top-level functions (no receiver)
+	retConst map[string]string        // Go constant -> Gallina constructor
+}
+
+// one function being translated: its parameters under their Gallina names, what it returns
+type c07aFrame struct {
+	tr     *c07aTr
+	params map[string]string // Go parameter name -> "input" / "arg"
+	bool   bool              // a boolean helper (returns conditions) or a decision function (returns constants)
+	stack  []string          // functions being inlined (no recursion)
+}
+
+func (f *c07aFrame) param(e ast.Expr) (string, bool) {
+	for {
+		p, ok := e.(*ast.ParenExpr)
+		if !ok {
+			break
+		}
+		e = p.X
+	}
 	id, ok := e.(*ast.Ident)
-	if !ok || !c.params[id.Name] {
+	if !ok {
 		return "", false
 	}
-	return id.Name, true
+	g, ok := f.params[id.Name]
+	return g, ok
 }
 
-func isNil(e ast.Expr) bool {
+// isNil is used by chancode.go (same package): kept under its old name
+func isNil(e ast.Expr) bool { return c07aIsIdent(e, "nil") }
+
+func c07aIsIdent(e ast.Expr, name string) bool {
 	id, ok := e.(*ast.Ident)
-	return ok && id.Name == "nil"
+	return ok && id.Name == name
 }
 
 // x.Kind() -> x
-func (c *decisionCfg) kindOf(e ast.Expr) (string, bool) {
+func (f *c07aFrame) kindOf(e ast.Expr) (string, bool) {
 	call, ok := e.(*ast.CallExpr)
 	if !ok || len(call.Args) != 0 {
 		return "", false
@@ -63,148 +187,351 @@ func (c *decisionCfg) kindOf(e ast.Expr) (string, bool) {
 	if !ok || sel.Sel.Name != "Kind" {
 		return "", false
 	}
-	return c.param(sel.X)
+	return f.param(sel.X)
 }
 
 // reflect.K -> K
-func reflectKind(e ast.Expr) (string, bool) {
+func c07aReflectKind(e ast.Expr) (string, bool) {
 	sel, ok := e.(*ast.SelectorExpr)
 	if !ok {
 		return "", false
 	}
-	if id, ok := sel.X.(*ast.Ident); !ok || id.Name != "reflect" {
+	if !c07aIsIdent(sel.X, "reflect") {
 		return "", false
 	}
 	return sel.Sel.Name, true
 }
 
-func (c *decisionCfg) cond(e ast.Expr) (string, error) {
+func c07aNot(n *c07aNode) *c07aNode { return &c07aNode{op: "not", a: []*c07aNode{n}} }
+
+func (f *c07aFrame) cond(e ast.Expr) (*c07aNode, error) {
 	switch x := e.(type) {
 	case *ast.ParenExpr:
-		return c.cond(x.X)
+		return f.cond(x.X)
+	case *ast.Ident:
+		if x.Name == "true" || x.Name == "false" {
+			return &c07aNode{op: "const", s: x.Name}, nil
+		}
 	case *ast.UnaryExpr:
 		if x.Op == token.NOT {
-			s, err := c.cond(x.X)
-			return "(negb " + s + ")", err
+			s, err := f.cond(x.X)
+			if err != nil {
+				return nil, err
+			}
+			return c07aNot(s), nil
 		}
 	case *ast.BinaryExpr:
 		switch x.Op {
 		case token.LAND, token.LOR:
-			l, err := c.cond(x.X)
+			l, err := f.cond(x.X)
 			if err != nil {
-				return "", err
+				return nil, err
 			}
-			r, err := c.cond(x.Y)
+			r, err := f.cond(x.Y)
 			if err != nil {
-				return "", err
+				return nil, err
 			}
-			op := "&&"
+			op := "and"
 			if x.Op == token.LOR {
-				op = "||"
+				op = "or"
 			}
-			return "(" + l + " " + op + " " + r + ")", nil
+			return &c07aNode{op: op, a: []*c07aNode{l, r}}, nil
 		case token.EQL, token.NEQ:
-			wrap := func(s string) string {
+			wrap := func(n *c07aNode) (*c07aNode, error) {
 				if x.Op == token.NEQ {
-					return "(negb " + s + ")"
+					return c07aNot(n), nil
 				}
-				return s
+				return n, nil
 			}
-			if p, ok := c.param(x.X); ok && isNil(x.Y) {
-				return wrap("(rt_is_nil " + p + ")"), nil
+			if p, ok := f.param(x.X); ok && c07aIsIdent(x.Y, "nil") {
+				return wrap(&c07aNode{op: "nil", x: p})
 			}
-			if p, ok := c.param(x.Y); ok && isNil(x.X) {
-				return wrap("(rt_is_nil " + p + ")"), nil
+			if p, ok := f.param(x.Y); ok && c07aIsIdent(x.X, "nil") {
+				return wrap(&c07aNode{op: "nil", x: p})
 			}
-			if p, ok := c.param(x.X); ok {
-				if q, ok := c.param(x.Y); ok {
-					return wrap("(rt_eq " + p + " " + q + ")"), nil
-				}
-			}
-			if p, ok := c.kindOf(x.X); ok {
-				if k, ok := reflectKind(x.Y); ok {
-					return wrap("(rt_kind_is " + coqStr(k) + " " + p + ")"), nil
+			if p, ok := f.param(x.X); ok {
+				if q, ok := f.param(x.Y); ok {
+					return wrap(&c07aNode{op: "eq", x: p, y: q})
 				}
 			}
-			if p, ok := c.kindOf(x.Y); ok {
-				if k, ok := reflectKind(x.X); ok {
-					return wrap("(rt_kind_is " + coqStr(k) + " " + p + ")"), nil
+			if p, ok := f.kindOf(x.X); ok {
+				if k, ok := c07aReflectKind(x.Y); ok {
+					return wrap(&c07aNode{op: "kind", s: k, x: p})
+				}
+			}
+			if p, ok := f.kindOf(x.Y); ok {
+				if k, ok := c07aReflectKind(x.X); ok {
+					return wrap(&c07aNode{op: "kind", s: k, x: p})
+				}
+			}
+			// two boolean expressions compared (c == false, …): both are evaluated
+			l, err := f.cond(x.X)
+			if err == nil {
+				var r *c07aNode
+				if r, err = f.cond(x.Y); err == nil {
+					return wrap(&c07aNode{op: "beq", a: []*c07aNode{l, r}})
 				}
 			}
 		}
 	case *ast.CallExpr:
 		// x.M(y)
 		if sel, ok := x.Fun.(*ast.SelectorExpr); ok && len(x.Args) == 1 {
-			if p, ok := c.param(sel.X); ok {
-				if q, ok := c.param(x.Args[0]); ok {
+			if p, ok := f.param(sel.X); ok {
+				if q, ok := f.param(x.Args[0]); ok {
 					if sel.Sel.Name == "Implements" {
-						return "(rt_implements u " + p + " " + q + ")", nil
+						return &c07aNode{op: "impl", x: p, y: q}, nil
 					}
-					return "(unk " + coqStr(sel.Sel.Name) + " " + p + " " + q + ")", nil
+					return &c07aNode{op: "unk", s: sel.Sel.Name, x: p, y: q}, nil
+				}
+			}
+		}
+		// b(x[, y]): a private boolean decision function of the package, inlined
+		if id, ok := x.Fun.(*ast.Ident); ok {
+			return f.inline(id.Name, x.Args, true)
+		}
+	}
+	return nil, fmt.Errorf("condition %s is outside the translated fragment", types.ExprString(e))
+}
+
+// the call f(args) of a private function over reflect.Type parameters, arguments parameters of the caller
+func (f *c07aFrame) inline(name string, args []ast.Expr, wantBool bool) (*c07aNode, error) {
+	fn := f.tr.funcs[name]
+	if fn == nil || fn.Body == nil {
+		return nil, fmt.Errorf("call of %s: not a function of the package", name)
+	}
+	for _, s := range f.stack {
+		if s == name {
+			return nil, fmt.Errorf("call of %s: recursion", name)
+		}
+	}
+	if len(f.stack) >= 4 {
+		return nil, fmt.Errorf("call of %s: helpers nested too deeply", name)
+	}
+	if fn.Type.TypeParams != nil && len(fn.Type.TypeParams.List) > 0 {
+		return nil, fmt.Errorf("call of %s: generic function", name)
+	}
+	if fn.Type.Results == nil || len(fn.Type.Results.List) != 1 || len(fn.Type.Results.List[0].Names) > 0 {
+		return nil, fmt.Errorf("call of %s: not a function with one unnamed result", name)
+	}
+	rt := types.ExprString(fn.Type.Results.List[0].Type)
+	if wantBool && rt != "bool" || !wantBool && rt != "assignableType" {
+		return nil, fmt.Errorf("call of %s: result type %s", name, rt)
+	}
+	var ps []string
+	for _, fl := range fn.Type.Params.List {
+		if types.ExprString(fl.Type) != "reflect.Type" {
+			return nil, fmt.Errorf("call of %s: parameter of type %s", name, types.ExprString(fl.Type))
+		}
+		if len(fl.Names) == 0 {
+			return nil, fmt.Errorf("call of %s: unnamed parameter", name)
+		}
+		for _, n := range fl.Names {
+			ps = append(ps, n.Name)
+		}
+	}
+	if len(ps) != len(args) {
+		return nil, fmt.Errorf("call of %s: %d arguments for %d parameters", name, len(args), len(ps))
+	}
+	g := &c07aFrame{tr: f.tr, params: map[string]string{}, bool: wantBool, stack: append(append([]string{}, f.stack...), name)}
+	for i, a := range args {
+		p, ok := f.param(a)
+		if !ok {
+			return nil, fmt.Errorf("call of %s: argument %s is not a parameter", name, types.ExprString(a))
+		}
+		if ps[i] != "_" {
+			g.params[ps[i]] = p
+		}
+	}
+	return g.stmts(fn.Body.List, nil)
+}
+
+func c07aIte(c, t, e *c07aNode) *c07aNode { return &c07aNode{op: "ite", a: []*c07aNode{c, t, e}} }
+
+// a statement list -> decision tree; k = what control does when it falls off the end (nil: it must not)
+func (f *c07aFrame) stmts(l []ast.Stmt, k *c07aNode) (*c07aNode, error) {
+	if len(l) == 0 {
+		if k == nil {
+			return nil, fmt.Errorf("control reaches the end of the function without a return")
+		}
+		return k, nil
+	}
+	switch x := l[0].(type) {
+	case *ast.EmptyStmt:
+		return f.stmts(l[1:], k)
+	case *ast.BlockStmt:
+		rest, err := f.rest(l[1:], k)
+		if err != nil {
+			return nil, err
+		}
+		return f.stmts(x.List, rest)
+	case *ast.ReturnStmt:
+		// what follows a return is dead code (go vet's business, not ours)
+		if len(x.Results) != 1 {
+			return nil, fmt.Errorf("return with %d results", len(x.Results))
+		}
+		if f.bool {
+			return f.cond(x.Results[0])
+		}
+		r := x.Results[0]
+		for {
+			p, ok := r.(*ast.ParenExpr)
+			if !ok {
+				break
+			}
+			r = p.X
+		}
+		if id, ok := r.(*ast.Ident); ok && f.tr.retConst[id.Name] != "" {
+			return &c07aNode{op: "ret", s: f.tr.retConst[id.Name]}, nil
+		}
+		if call, ok := r.(*ast.CallExpr); ok {
+			if id, ok := call.Fun.(*ast.Ident); ok {
+				return f.inline(id.Name, call.Args, false)
+			}
+		}
+		return nil, fmt.Errorf("return value %s is not one of the named constants", types.ExprString(x.Results[0]))
+	case *ast.IfStmt:
+		if x.Init != nil {
+			return nil, fmt.Errorf("if with an init statement")
+		}
+		cnd, err := f.cond(x.Cond)
+		if err != nil {
+			return nil, err
+		}
+		rest, err := f.rest(l[1:], k)
+		if err != nil {
+			return nil, err
+		}
+		th, err := f.stmts(x.Body.List, rest)
+		if err != nil {
+			return nil, err
+		}
+		var el *c07aNode
+		switch e := x.Else.(type) {
+		case nil:
+			el = rest
+			if el == nil {
+				return nil, fmt.Errorf("control reaches the end of the function without a return")
+			}
+		case *ast.BlockStmt:
+			el, err = f.stmts(e.List, rest)
+		case *ast.IfStmt:
+			el, err = f.stmts([]ast.Stmt{e}, rest)
+		default:
+			err = fmt.Errorf("else of an unknown shape")
+		}
+		if err != nil {
+			return nil, err
+		}
+		return c07aIte(cnd, th, el), nil
+	case *ast.SwitchStmt:
+		if x.Init != nil || x.Tag != nil {
+			return nil, fmt.Errorf("switch with an init statement or a tag")
+		}
+		rest, err := f.rest(l[1:], k)
+		if err != nil {
+			return nil, err
+		}
+		var deflt *ast.CaseClause
+		var clauses []*ast.CaseClause
+		for _, s := range x.Body.List {
+			cc, ok := s.(*ast.CaseClause)
+			if !ok {
+				return nil, fmt.Errorf("switch body of an unknown shape")
+			}
+			for _, b := range cc.Body {
+				if _, ok := b.(*ast.BranchStmt); ok {
+					return nil, fmt.Errorf("break / fallthrough / goto in a switch")
+				}
+			}
+			if cc.List == nil {
+				deflt = cc
+			} else {
+				clauses = append(clauses, cc)
+			}
+		}
+		out := rest
+		if deflt != nil {
+			if out, err = f.stmts(deflt.Body, rest); err != nil {
+				return nil, err
+			}
+		}
+		if out == nil && len(clauses) > 0 {
+			return nil, fmt.Errorf("control reaches the end of the function without a return")
+		}
+		for i := len(clauses) - 1; i >= 0; i-- {
+			cc := clauses[i]
+			var cnd *c07aNode
+			for _, e := range cc.List {
+				c, err := f.cond(e)
+				if err != nil {
+					return nil, err
+				}
+				if cnd == nil {
+					cnd = c
+				} else {
+					cnd = &c07aNode{op: "or", a: []*c07aNode{cnd, c}}
+				}
+			}
+			body, err := f.stmts(cc.Body, rest)
+			if err != nil {
+				return nil, err
+			}
+			out = c07aIte(cnd, body, out)
+		}
+		if out == nil {
+			return nil, fmt.Errorf("control reaches the end of the function without a return")
+		}
+		return out, nil
+	}
+	return nil, fmt.Errorf("statement outside the translated fragment (only if / switch / return)")
+}
+
+// the continuation made of the statements that follow (nil when there are none and control must not get there)
+func (f *c07aFrame) rest(l []ast.Stmt, k *c07aNode) (*c07aNode, error) {
+	if len(l) == 0 {
+		return k, nil
+	}
+	return f.stmts(l, k)
+}
+
+// ---------------------------------------------------------------- driver
+
+func c07aExtract(repo string) (string, string, error) {
+	fset := token.NewFileSet()
+	dir := filepath.Join(repo, "compose")
+	f, err := parser.ParseFile(fset, filepath.Join(dir, "utils.go"), nil, 0)
+	if err != nil {
+		return "", "", err
+	}
+	tr := &c07aTr{funcs: map[string]*ast.FuncDecl{}, retConst: map[string]string{}}
+	files := []*ast.File{f}
+	// helpers may live in any file of the package (test files and files behind the verif tag excluded)
+	if ents, err := os.ReadDir(dir); err == nil {
+		var names []string
+		for _, e := range ents {
+			n := e.Name()
+			if e.IsDir() || !strings.HasSuffix(n, ".go") || strings.HasSuffix(n, "_test.go") || strings.HasPrefix(n, "verif_") || n == "utils.go" {
+				continue
+			}
+			names = append(names, n)
+		}
+		sort.Strings(names)
+		for _, n := range names {
+			if g, err := parser.ParseFile(fset, filepath.Join(dir, n), nil, 0); err == nil {
+				files = append(files, g)
+			}
+		}
+	}
+	for _, g := range files {
+		for _, d := range g.Decls {
+			if fn, ok := d.(*ast.FuncDecl); ok && fn.Recv == nil {
+				if _, dup := tr.funcs[fn.Name.Name]; !dup {
+					tr.funcs[fn.Name.Name] = fn
 				}
 			}
 		}
 	}
-	return "", fmt.Errorf("condition %s is outside the translated fragment", types.ExprString(e))
-}
-
-// a statement list that always returns -> Gallina expression
-func (c *decisionCfg) stmts(l []ast.Stmt, ind string) (string, error) {
-	if len(l) == 0 {
-		return "", fmt.Errorf("control reaches the end of a block without a return")
-	}
-	switch x := l[0].(type) {
-	case *ast.ReturnStmt:
-		if len(x.Results) != 1 {
-			return "", fmt.Errorf("return with %d results", len(x.Results))
-		}
-		id, ok := x.Results[0].(*ast.Ident)
-		if !ok || c.retConst[id.Name] == "" {
-			return "", fmt.Errorf("return value %s is not one of the named constants", types.ExprString(x.Results[0]))
-		}
-		return c.retConst[id.Name], nil
-	case *ast.IfStmt:
-		if x.Init != nil {
-			return "", fmt.Errorf("if with an init statement")
-		}
-		cnd, err := c.cond(x.Cond)
-		if err != nil {
-			return "", err
-		}
-		th, err := c.stmts(x.Body.List, ind+"  ")
-		if err != nil {
-			return "", err
-		}
-		var el string
-		switch e := x.Else.(type) {
-		case nil:
-			el, err = c.stmts(l[1:], ind)
-		case *ast.BlockStmt:
-			if len(l) > 1 {
-				return "", fmt.Errorf("statements after an if/else whose branches both return")
-			}
-			el, err = c.stmts(e.List, ind+"  ")
-		case *ast.IfStmt:
-			el, err = c.stmts(append([]ast.Stmt{e}, l[1:]...), ind)
-		}
-		if err != nil {
-			return "", err
-		}
-		if strings.HasPrefix(th, "if ") {
-			th = "(" + th + ")"
-		}
-		return "if " + cnd + " then " + th + "\n" + ind + "else " + el, nil
-	}
-	return "", fmt.Errorf("statement outside the translated fragment (only if / return)")
-}
-
-func extractAssignable(repo string) (string, string, error) {
-	fset := token.NewFileSet()
-	f, err := parseGo(fset, repo, "compose", "utils.go")
-	if err != nil {
-		return "", "", err
-	}
-	fn := topFunc(f, "checkAssignable")
+	fn := tr.funcs["checkAssignable"]
 	if fn == nil || fn.Body == nil {
 		return "", "", fmt.Errorf("func checkAssignable not found")
 	}
@@ -217,42 +544,60 @@ func extractAssignable(repo string) (string, string, error) {
 			ps = append(ps, n.Name)
 		}
 	}
-	if strings.Join(ps, ",") != "input,arg" {
-		return "", "", fmt.Errorf("checkAssignable: parameters (%s), expected (input, arg)", strings.Join(ps, ", "))
+	if len(ps) != 2 || ps[0] == ps[1] {
+		return "", "", fmt.Errorf("checkAssignable: parameters (%s), expected two reflect.Type", strings.Join(ps, ", "))
 	}
-	// the constants of assignableType, in declaration order
-	cfg := &decisionCfg{params: map[string]bool{"input": true, "arg": true}, retConst: map[string]string{}}
-	for _, d := range f.Decls {
-		gd, ok := d.(*ast.GenDecl)
-		if !ok || gd.Tok != token.CONST {
-			continue
-		}
-		for _, sp := range gd.Specs {
-			for _, n := range sp.(*ast.ValueSpec).Names {
-				if strings.HasPrefix(n.Name, "assignableType") {
-					cfg.retConst[n.Name] = strings.TrimPrefix(n.Name, "assignableType")
+	if fn.Type.Results == nil || len(fn.Type.Results.List) != 1 || len(fn.Type.Results.List[0].Names) > 0 ||
+		types.ExprString(fn.Type.Results.List[0].Type) != "assignableType" {
+		return "", "", fmt.Errorf("checkAssignable: result is not one unnamed assignableType")
+	}
+	// the constants of assignableType
+	for _, g := range files {
+		for _, d := range g.Decls {
+			gd, ok := d.(*ast.GenDecl)
+			if !ok || gd.Tok != token.CONST {
+				continue
+			}
+			for _, sp := range gd.Specs {
+				for _, n := range sp.(*ast.ValueSpec).Names {
+					if strings.HasPrefix(n.Name, "assignableType") {
+						tr.retConst[n.Name] = strings.TrimPrefix(n.Name, "assignableType")
+					}
 				}
 			}
 		}
 	}
 	for _, want := range []string{"Must", "MustNot", "May"} {
-		if cfg.retConst["assignableType"+want] != want {
+		if tr.retConst["assignableType"+want] != want {
 			return "", "", fmt.Errorf("constant assignableType%s not found", want)
 		}
 	}
-	if len(cfg.retConst) != 3 {
-		return "", "", fmt.Errorf("assignableType has %d constants, the model knows 3", len(cfg.retConst))
+	if len(tr.retConst) != 3 {
+		return "", "", fmt.Errorf("assignableType has %d constants, the model knows 3", len(tr.retConst))
 	}
-	body, err := cfg.stmts(fn.Body.List, "  ")
+	top := &c07aFrame{tr: tr, params: map[string]string{}, stack: []string{"checkAssignable"}}
+	if ps[0] != "_" {
+		top.params[ps[0]] = "input"
+	}
+	if ps[1] != "_" {
+		top.params[ps[1]] = "arg"
+	}
+	tree, err := top.stmts(fn.Body.List, nil)
 	if err != nil {
 		return "", "", fmt.Errorf("checkAssignable: %v", err)
 	}
+	if tree.size() > 400 {
+		return "", "", fmt.Errorf("checkAssignable: decision tree of %d nodes", tree.size())
+	}
 	var b strings.Builder
 	b.WriteString("(* Gen/Assignable.v — GENERATED by tools/go2v (extractor \"assignable\") from compose/utils.go\n")
-	b.WriteString("   (func checkAssignable, translated statement by statement). Do not edit. *)\n")
-	b.WriteString("From Eino Require Import Base.Util Model.Types Model.TypesGenLib.\n\n")
+	b.WriteString("   (func checkAssignable, translated statement by statement; total and panic-aware reading). Do not edit. *)\n")
+	b.WriteString("From Eino Require Import Base.Util Model.Types Model.TypesGenLib Model.TypesGenLibP.\n\n")
 	b.WriteString("Definition check_assignable (unk : string -> option ty -> option ty -> bool) (u : univ) (input arg : option ty) : assignable :=\n  ")
-	b.WriteString(body)
+	b.WriteString(tree.total())
+	b.WriteString(".\n\n")
+	b.WriteString("Definition check_assignable_p (unk : string -> option ty -> option ty -> bool) (u : univ) (input arg : option ty) : option assignable :=\n  ")
+	b.WriteString(tree.partial())
 	b.WriteString(".\n")
 	return "Assignable.v", b.String(), nil
 }
